@@ -227,7 +227,8 @@ static void blk_oneshot(void) {
 			if (n % 16 == 0 && n) { memcpy(ctr, CTRS[c], 16); sm4_ctr_encrypt_blocks(&ek, ctr, in, n / 16, o); mr_ctr(SM4R[k], CTRS[c], 16, in, n, e); vh_eval(vh_hash(&n, 8, k + 700 + c)); if (memcmp(o, e, n)) { snprintf(key, sizeof key, "C04:oneshot:sm4_ctr_encrypt_blocks:ctr%d", c); vh_viol(key, "\"len\":%zu", n); }
 				memcpy(ctr, CTRS[c], 16); sm4_ctr32_encrypt_blocks(&ek, ctr, in, n / 16, o); mr_ctr(SM4R[k], CTRS[c], 4, in, n, e); vh_eval(vh_hash(&n, 8, k + 800 + c)); if (memcmp(o, e, n)) { snprintf(key, sizeof key, "C04:oneshot:sm4_ctr32_encrypt_blocks:ctr%d", c); vh_viol(key, "\"len\":%zu", n); } }
 			AES_KEY ak; aes_set_encrypt_key(&ak, KEYS[k], 16); memcpy(ctr, CTRS[c], 16); aes_ctr_encrypt(&ak, ctr, in, n, o); ref_cipher("AES-128-CTR", 1, 0, KEYS[k], CTRS[c], 16, NULL, 0, in, n, e, NULL, 0); vh_eval(vh_hash(&n, 8, k + 900 + c));
-			if (memcmp(o, e, n)) { snprintf(key, sizeof key, "C04:oneshot:aes_ctr_encrypt:ctr%d", c); vh_viol(key, "\"len\":%zu", n); } }
+			if (memcmp(o, e, n)) { snprintf(key, sizeof key, "C04:oneshot:aes_ctr_encrypt:ctr%d", c); vh_viol(key, "\"len\":%zu", n); }
+			/* AES-192 / AES-256 in CTR mode */ for (int a = 1; a < 3; a++) { static const size_t KL2[] = { 16, 24, 32 }; static const char *CN[] = { "AES-128-CTR", "AES-192-CTR", "AES-256-CTR" }; aes_set_encrypt_key(&ak, KEYS[k], KL2[a]); memcpy(ctr, CTRS[c], 16); aes_ctr_encrypt(&ak, ctr, in, n, o); ref_cipher(CN[a], 1, 0, KEYS[k], CTRS[c], 16, NULL, 0, in, n, e, NULL, 0); vh_eval(vh_hash(&n, 8, k + 950 + c * 3 + a)); if (memcmp(o, e, n)) { snprintf(key, sizeof key, "C04:oneshot:aes_ctr_encrypt:%s:ctr%d", CN[a], c); vh_viol(key, "\"len\":%zu", n); } } }
 		/* OFB / CFB-s vs OpenSSL (OFB, CFB128, CFB8) and the generic reference */
 		memcpy(iv, IVS[k], 16); sm4_ofb_encrypt(&ek, iv, in, n, o); ref_cipher("SM4-OFB", 1, 0, KEYS[k], IVS[k], 16, NULL, 0, in, n, e, NULL, 0); vh_eval(vh_hash(&n, 8, k + 1000)); if (memcmp(o, e, n)) vh_viol("C04:oneshot:sm4_ofb_encrypt", "\"len\":%zu", n);
 		for (size_t s = 1; s <= 16; s++) { memcpy(iv, IVS[k], 16); sm4_cfb_encrypt(&ek, s, iv, in, n, o); mr_cfb(SM4R[k], 1, s, IVS[k], in, n, e); vh_eval(vh_hash(&n, 8, k + 1100 + s));
@@ -239,7 +240,11 @@ static void blk_oneshot(void) {
 		static const size_t KL[] = { 16, 24, 32 }; static const char *AN[] = { "AES-128-CBC", "AES-192-CBC", "AES-256-CBC" };
 		for (int a = 0; a < 3; a++) { AES_KEY ak, adk; aes_set_encrypt_key(&ak, KEYS[k], KL[a]); aes_set_decrypt_key(&adk, KEYS[k], KL[a]); el = ref_cipher(AN[a], 1, 1, KEYS[k], IVS[k], 16, NULL, 0, in, n, e, NULL, 0);
 			r = aes_cbc_padding_encrypt(&ak, IVS[k], in, n, o, &ol); vh_eval(vh_hash(&n, 8, k + 1400 + a)); if (r != 1 || ol != (size_t)el || memcmp(o, e, ol)) { snprintf(key, sizeof key, "C04:oneshot:aes%zu_cbc_padding_encrypt", KL[a] * 8); vh_viol(key, "\"len\":%zu,\"ret\":%d", n, r); }
-			r = aes_cbc_padding_decrypt(&adk, IVS[k], e, (size_t)el, d, &ol); vh_eval(vh_hash(&n, 8, k + 1500 + a)); if (r != 1 || ol != n || memcmp(d, in, n)) { snprintf(key, sizeof key, "C04:oneshot:aes%zu_cbc_padding_decrypt", KL[a] * 8); vh_viol(key, "\"len\":%zu,\"ret\":%d", n, r); } }
+			r = aes_cbc_padding_decrypt(&adk, IVS[k], e, (size_t)el, d, &ol); vh_eval(vh_hash(&n, 8, k + 1500 + a)); if (r != 1 || ol != n || memcmp(d, in, n)) { snprintf(key, sizeof key, "C04:oneshot:aes%zu_cbc_padding_decrypt", KL[a] * 8); vh_viol(key, "\"len\":%zu,\"ret\":%d", n, r); }
+			/* the block-level CBC calls in place (out == in), both directions, as for SM4 above */
+			if (n % 16 == 0 && n) { memcpy(o, in, n); aes_cbc_encrypt(&ak, IVS[k], o, n / 16, o); vh_eval(vh_hash(&n, 8, k + 1550 + a)); if (memcmp(o, e, n)) { snprintf(key, sizeof key, "C04:oneshot:aes%zu_cbc_encrypt:in-place", KL[a] * 8); vh_viol(key, "\"len\":%zu", n); }
+				memcpy(d, e, n); aes_cbc_decrypt(&adk, IVS[k], d, n / 16, d); vh_eval(vh_hash(&n, 8, k + 1560 + a)); if (memcmp(d, in, n)) { snprintf(key, sizeof key, "C04:oneshot:aes%zu_cbc_decrypt:in-place", KL[a] * 8); vh_viol(key, "\"len\":%zu", n); } }
+			{ memcpy(d, e, (size_t)el); size_t ol2 = 0; r = aes_cbc_padding_decrypt(&adk, IVS[k], d, (size_t)el, d, &ol2); vh_eval(vh_hash(&n, 8, k + 1570 + a)); if (r != 1 || ol2 != n || memcmp(d, in, n)) { snprintf(key, sizeof key, "C04:oneshot:aes%zu_cbc_padding_decrypt:in-place", KL[a] * 8); vh_viol(key, "\"len\":%zu,\"ret\":%d", n, r); } } }
 		/* CBC-MAC with every 2-cut for short messages */
 		uint8_t mac[16], em[16]; mr_cbcmac(SM4R[k], in, n, em);
 		for (size_t c = 0; c <= n; c += (n <= 50 ? 1 : n / 2 ? n / 2 : 1)) { SM4_CBC_MAC_CTX mc; sm4_cbc_mac_init(&mc, KEYS[k]); sm4_cbc_mac_update(&mc, in, c); sm4_cbc_mac_update(&mc, in + c, n - c); sm4_cbc_mac_finish(&mc, mac); vh_eval(vh_hash(&c, 8, n * 7 + k + 1600));
@@ -304,6 +309,13 @@ static void blk_gcm_main(void) {
 }
 static void blk_gcm_tail(void) {
 	blk_gcm_wrap();
+	/* AES-192 / AES-256 in GCM against OpenSSL: IV lengths {1, 12, 16, 64}, AAD {0, 1, 20}, message lengths around the block size, tag lengths 12..16 */
+	if (vh_block_begin("gcm-aes-192-256")) { static const size_t KL2[] = { 24, 32 }, IVL[] = { 1, 12, 16, 64 }, AADL[] = { 0, 1, 20 }, MLN[] = { 0, 1, 15, 16, 17, 33, 100 }; static const char *GN[] = { "AES-192-GCM", "AES-256-GCM" }; static uint8_t o[200], e[200], d[200];
+		for (int k = 0; k < 3; k++) for (int a = 0; a < 2; a++) for (int ii = 0; ii < 4; ii++) for (int ai = 0; ai < 3; ai++) { if (!vh_next()) continue; AES_KEY ak; aes_set_encrypt_key(&ak, KEYS[k], KL2[a]);
+			for (int mi = 0; mi < 7; mi++) for (size_t tl = 12; tl <= 16; tl += 2) { const uint8_t *iv = PT + 900, *aad = PT + 1000, *in = PT + 6000; size_t n = MLN[mi], al = AADL[ai], ivl = IVL[ii]; uint8_t tag[16], ot[16]; char key[128]; long el = ref_cipher(GN[a], 1, 0, KEYS[k], iv, ivl, aad, al, in, n, e, ot, tl); if (el != (long)n) vh_harness_error("openssl %s ivlen=%zu", GN[a], ivl);
+				int r = aes_gcm_encrypt(&ak, iv, ivl, aad, al, in, n, o, tl, tag); size_t kk[6] = { (size_t)k, (size_t)a, ivl, al, n, tl }; vh_eval(vh_hash(kk, sizeof kk, 91)); if (r != 1 || memcmp(o, e, n) || memcmp(tag, ot, tl)) { snprintf(key, sizeof key, "C04:gcm:aes_gcm_encrypt:%s", GN[a]); vh_viol(key, "\"ivlen\":%zu,\"aadlen\":%zu,\"len\":%zu,\"taglen\":%zu,\"ret\":%d", ivl, al, n, tl, r); }
+				r = aes_gcm_decrypt(&ak, iv, ivl, aad, al, e, n, ot, tl, d); vh_eval(vh_hash(kk, sizeof kk, 92)); if (r != 1 || memcmp(d, in, n)) { snprintf(key, sizeof key, "C04:gcm:aes_gcm_decrypt:%s", GN[a]); vh_viol(key, "\"ivlen\":%zu,\"aadlen\":%zu,\"len\":%zu,\"taglen\":%zu,\"ret\":%d", ivl, al, n, tl, r); } }
+			vh_sample("{\"block\":\"gcm-aes-192-256\",\"key\":%d,\"cipher\":\"%s\",\"ivlen\":%zu,\"aadlen\":%zu}", k, GN[a], IVL[ii], AADL[ai]); } }
 	/* ghash / gf128 primitives */
 	if (!vh_block_begin("ghash")) return;
 	for (size_t al = 0; al <= 40; al++) for (size_t cl = 0; cl <= 40; cl++) { if (!vh_next()) continue; uint8_t g[16], r[16]; ghash(KEYS[2], PT + 3, al, PT + 77, cl, g); mr_ghash(KEYS[2], PT + 3, al, PT + 77, cl, r); vh_eval(vh_hash(&al, 8, cl + 50)); if (memcmp(g, r, 16)) vh_viol("C04:ghash", "\"aadlen\":%zu,\"clen\":%zu", al, cl);
